@@ -208,9 +208,12 @@ impl Mp4Track {
     }
 
     pub fn duration(&self) -> Duration {
-        Duration::from_micros(
-            self.trak.mdia.mdhd.duration * 1_000_000 / self.trak.mdia.mdhd.timescale as u64,
-        )
+        let timescale = u128::from(self.trak.mdia.mdhd.timescale);
+        if timescale == 0 {
+            return Duration::from_micros(0);
+        }
+        let micros = u128::from(self.trak.mdia.mdhd.duration) * 1_000_000 / timescale;
+        Duration::from_micros(micros.min(u128::from(u64::MAX)) as u64)
     }
 
     pub fn bitrate(&self) -> u32 {
